@@ -12,7 +12,7 @@ import (
 
 	"verifsim/kit"
 
-	_ "verifsim/worlds/chainworld"
+	_ "verifsim/worlds/chainsmoke"
 )
 
 var userArgs []string
